@@ -165,7 +165,7 @@ def gen(stratum, rng, tier):
     }
 
 
-_shrink_budget = [1500]  # candidates per worker process: enough to minimise several witnesses, bounded under mass failure
+_shrink_budget = [400]  # candidates per worker process: enough to minimise several witnesses, bounded under mass failure
 
 
 def shrink(case):
